@@ -218,6 +218,10 @@ CHECK_DEADLOCK FALSE
 """
 
 
+# "TRUE" since /repo commit 8a32233 (the first block of a segment is verified against its real parent); "FALSE" = as coded before
+FIX_PARENT = "TRUE"
+
+
 def chain_witnesses():
     behs = []
     wdir = os.path.join(vlib.VERIF, "findings")
@@ -246,7 +250,7 @@ def chain_generate(ctx):
     behs = chain_witnesses()
     nw = len(behs)
     # M: design level, schedules with explicit queries
-    cfg = VC_CFG % dict(acts=4 if quick else 6, fix="FALSE", auto="FALSE", gen="none",
+    cfg = VC_CFG % dict(acts=4 if quick else 6, fix=FIX_PARENT, auto="FALSE", gen="none",
                         invs="INVARIANT ActiveVersionIsCanonical CanonChainSafe", view="View")
     m = ctx.tlc_must("VersionChain", cfg, name="M_chain", files=files, timeout=1500)
     for v in m.printed:
@@ -261,12 +265,12 @@ def chain_generate(ctx):
                          files={"known_c12.json": json.dumps([{"clause": "-none-", "disc": ["-"]}])})
         ctx.cov["chain_repaired_design_holds"] = bool(f.ok)
     # G1: one witness schedule per distinct reachable transition (the driver queries after every action)
-    cfg = VC_CFG % dict(acts=6 if quick else 8, fix="FALSE", auto="TRUE", gen="transitions",
+    cfg = VC_CFG % dict(acts=6 if quick else 8, fix=FIX_PARENT, auto="TRUE", gen="transitions",
                         invs="INVARIANT GenTransitions", view="ViewG")
     g1 = ctx.tlc_must("VersionChain", cfg, name="G1_chain_transitions", files=files, timeout=1500, workers=1)
     tr = [sched(v["h"]) for v in g1.printed if isinstance(v, dict) and v.get("kind") == "B"]
     # G2: random schedules with TLC-scheduled queries
-    cfg = (VC_CFG % dict(acts=8, fix="FALSE", auto="FALSE", gen="leaf", invs="CONSTRAINT Leaf", view="View")).replace("VIEW View\n", "")
+    cfg = (VC_CFG % dict(acts=8, fix=FIX_PARENT, auto="FALSE", gen="leaf", invs="CONSTRAINT Leaf", view="View")).replace("VIEW View\n", "")
     g2 = ctx.tlc_must("VersionChain", cfg, name="G2_chain_simulate", files=files, timeout=1500,
                       simulate={"num": 100 if quick else 1500}, depth=9)
     sim = [json.loads(x) for x in sorted({json.dumps(sched(v["h"])) for v in g2.printed if isinstance(v, dict) and v.get("kind") == "B"})]
